@@ -105,6 +105,7 @@ def contents(tier, rnd):
         ('latin1-bytes', 'caf\xe9 na\xefve'.encode('latin-1')),
         ('crlf-str', 'line one\r\nline two  \r\n\r\n- dashed\r\nFrom here\n'),
         ('binary', rnd.randbytes(3000)), ('binary-short', b'\xff\xfe\x00\x80binary'),
+        ('far-repeat', rnd.randbytes(20000) * 2 + b'tail'),       # a repetition 20000 octets back: needs more than an 8 KiB DEFLATE window
         ('big-random', rnd.randbytes(big)), ('big-text', ('All work and no play makes Jack a dull boy. ' * 64 + '\n') * (big // 2817 + 1)),
     ])
 
@@ -177,6 +178,11 @@ def enumerate_cases(tier, seed):
         for sc in (0, 1, 9):
             n += 1
             add(kind='plain', content=small[n % len(small)], format=None, comp=comp, signers=sc, encoding=None, sensitive=True)
+    # compressed by ANOTHER producer (the codec called directly with its own settings: best compression, full window), every header form
+    for cn in ('ascii-bytes', 'far-repeat', 'big-text', 'binary'):
+        for comp in COMPS[1:]:
+            for hdr in ('new', 'old-4', 'old-indeterminate'):
+                add(kind='foreign-compressed', content=cn, comp=comp, header=hdr, signers=0)
     # encrypted: signed before / after encryption
     recips = [[['key', 'x25519']], [['key', 'rsa']], [['pw']], [['pw'], ['key', 'p256']], [['key', 'p256'], ['key', 'x25519']]]
     for order in ('sign-then-encrypt', 'encrypt-then-sign'):
@@ -344,6 +350,8 @@ def run_case(case):
     scratch = os.path.join(SCRATCH, 'messages-%d' % os.getpid())
     try:
         os.makedirs(scratch, exist_ok=True)
+        if case['kind'] == 'foreign-compressed':
+            return case, foreign_compressed(case), obs, 'run'
         m, want = build(case, scratch)
         if m is None:
             return case, fails, obs, 'refused'
@@ -428,6 +436,60 @@ def run_case(case):
         return case, fails, obs, 'run'
     finally:
         shutil.rmtree(scratch, ignore_errors=True)
+
+
+def foreign_compressed(case):
+    """a literal packet compressed by the codec itself (level 9, full window; what GnuPG and others write), wrapped in a compressed-data
+    packet with the given header form: PGPy must import it and return the content"""
+    import zlib, bz2
+    fails = []
+    data = contents(case['tier'], random.Random(0))[case['content']]
+    data = data.encode('utf-8') if isinstance(data, str) else data
+    lit = b'b' + b'\x00' + (1700000000).to_bytes(4, 'big') + data
+    litpkt = bytes([0xC0 | 11, 0xFF]) + len(lit).to_bytes(4, 'big') + lit
+    comp = case['comp']
+    if comp == 'ZIP':
+        c = zlib.compressobj(9, zlib.DEFLATED, -15)
+        body = c.compress(litpkt) + c.flush()
+    elif comp == 'ZLIB':
+        c = zlib.compressobj(9, zlib.DEFLATED, 15)
+        body = c.compress(litpkt) + c.flush()
+    else:
+        body = bz2.compress(litpkt, 9)
+    body = bytes([COMPS.index(comp)]) + body
+    if case['header'] == 'new':
+        raw = bytes([0xC0 | 8, 0xFF]) + len(body).to_bytes(4, 'big') + body
+    elif case['header'] == 'old-4':
+        raw = bytes([0x80 | (8 << 2) | 2]) + len(body).to_bytes(4, 'big') + body
+    else:
+        raw = bytes([0x80 | (8 << 2) | 3]) + body
+    for label, blob in [('binary', raw)] + ([('armored', armor_text(raw))] if len(raw) < 100000 else []):
+        try:
+            m = pgpy.PGPMessage.from_blob(blob)
+            got = m.message
+            got = bytes(got) if isinstance(got, (bytes, bytearray)) else got.encode('utf-8')
+            if got != data:
+                fails.append('%s import of a %s message of another producer (%s header): content differs (%d octets, want %d)' % (label, comp, case['header'], len(got), len(data)))
+            if not m.is_compressed:
+                fails.append('%s import of a %s message of another producer: not reported as compressed' % (label, comp))
+        except Exception as ex:
+            fails.append('%s import of a %s message of another producer (%s header, content %s) raised %s: %s'
+                         % (label, comp, case['header'], case['content'], type(ex).__name__, str(ex)[:80]))
+    return fails
+
+
+def armor_text(raw):
+    import base64
+    crc = 0xB704CE
+    for b in raw:
+        crc ^= b << 16
+        for _ in range(8):
+            crc <<= 1
+            if crc & 0x1000000:
+                crc ^= 0x1864CFB
+    b64 = base64.b64encode(raw).decode('ascii')
+    lines = [b64[i:i + 64] for i in range(0, len(b64), 64)]
+    return '-----BEGIN PGP MESSAGE-----\n\n' + '\n'.join(lines) + '\n=' + base64.b64encode((crc & 0xFFFFFF).to_bytes(3, 'big')).decode('ascii') + '\n-----END PGP MESSAGE-----\n'
 
 
 def cost(case):
